@@ -61,3 +61,12 @@ Proof. intros imp Hi single T T' inc mtg ply H. pose proof (calc64_mono imp Hi T
 (* the defect that was repaired: replacing the allotment by 500 breaks the cap for every clock below 715 ms *)
 Theorem C20_unconditional_500_refuted : exists T, 0 <= T < 2 ^ 31 /\ ~ (10 * 500 <= 7 * T).
 Proof. exists 100. lia. Qed.
+
+(* a clock of exactly 0 ms: nothing is allotted (before the repair d9ec8e1 the glue read 0 as "no clock given") *)
+Theorem C20_zero_clock_zero_time : forall imp, (forall x, (/128 <= imp x)%R) ->
+  forall single inc mtg ply, 0 <= inc -> final_allotment single (calc64 imp 0 inc mtg ply) = 0.
+Proof.
+  intros imp Hi single inc mtg ply Hinc.
+  pose proof (C20_search_allotment_cap imp single 0 inc mtg ply ltac:(lia)) as H1.
+  pose proof (C20_search_allotment_nonneg imp Hi single 0 inc mtg ply ltac:(lia) Hinc) as H2. lia.
+Qed.
